@@ -4,6 +4,7 @@ pub mod c03;
 pub mod c04;
 pub mod c11;
 pub mod c12;
+pub mod c16;
 pub mod c19;
 
 pub fn run(id: &str, tier: Tier) -> Option<Report> {
@@ -12,6 +13,7 @@ pub fn run(id: &str, tier: Tier) -> Option<Report> {
         "C04" => c04::run(tier),
         "C11" => c11::run(tier),
         "C12" => c12::run(tier),
+        "C16" => c16::run(tier),
         "C19" => c19::run(tier),
         _ => return None,
     })
@@ -44,6 +46,7 @@ pub fn replay(path: &str) -> i32 {
         "C04" => c04::replay(case),
         "C11" => c11::replay(case),
         "C12" => c12::replay(case),
+        "C16" => c16::replay(case),
         _ => {
             eprintln!("no replay for property {id}");
             return 2;
